@@ -470,13 +470,16 @@ def cut_market(rng, case, cut_day):
     mode = rng.choice(['rewrite', 'remove', 'mixed'])
     for s, rows in case['market'].items():
         out = []
+        priced = [(dtm.date.fromisoformat(x[0]) - EPOCH).days for x in rows if x[2] is not None]
+        # an asset whose first bar is dated on the cut day itself: in the other world nothing after that bar exists yet
+        just_listed = bool(priced) and min(priced) == cut_day and rng.random() < 0.7
         for r in rows:
             d = (dtm.date.fromisoformat(r[0]) - EPOCH).days
             if d <= cut_day:
                 out.append(list(r))
             else:
                 k = rng.random()
-                if mode == 'remove' or (mode == 'mixed' and k < 0.4):
+                if just_listed or mode == 'remove' or (mode == 'mixed' and k < 0.4):
                     continue
                 f = rng.choice([0.5, 2.0, 1.3, 0.01])
                 out.append([r[0]] + [None if x is None else round(x * f * rng.uniform(0.9, 1.1), 4) for x in r[1:]])
@@ -885,7 +888,7 @@ def run_batch(prop, tier, rng, cases, n_corpus):
                 if priced and d0 < priced[0] <= d1:
                     firsts.append(priced[0])
             if firsts and rng.random() < 0.6:
-                cut = max(d0 - 2, rng.choice(firsts) - rng.choice([0, 0, 1, 1, 2, 3]))     # 0: the listing day is the last known day
+                cut = max(d0 - 2, rng.choice(firsts) - rng.choice([0, 0, 0, 1, 1, 2, 3]))     # 0: the listing day is the last known day
             cuts.append(cut)
             cases2.append(dict(c, market=cut_market(rng, c, cut)))
         reals2 = run_many(cases2)
